@@ -212,7 +212,7 @@ REFUSALS = ("two-fields", "two-aliases", "two-via-fragment",
             "two-with-typename",
             "two-inside-one-fragment", "two-inside-inline-fragment",
             "no-resolver", "query-op", "mutation-op", "blocking-runtime",
-            "pool-runtime")
+            "pool-runtime", "meta-only")
 
 
 _SYNC_BEHAVIOURS = ("sync", "default", "shared", "tdefault", "gen")
@@ -275,6 +275,22 @@ def _plan(draws, spec, idx, scenario, sync_only=False):
             op.sel = [Spread("FX")]
         else:
             op.sel = [InlineFrag(spec.subscription, both)]
+    if scenario == "meta-only":
+        # the single root field is a meta field: nothing to subscribe to
+        kind = rs.below(3, "meta_kind")
+        if kind == 0:
+            m = FieldSel("__typename")
+        elif kind == 1:
+            m = FieldSel("__schema", sel=[
+                FieldSel("queryType", sel=[FieldSel("name")])])
+        else:
+            m = FieldSel("__type", args=[("name", '"%s"' % spec.query)],
+                         sel=[FieldSel("name")])
+            m.kwargs = {"name": spec.query}
+        m.ptype = spec.subscription
+        op.sel = [m]
+        op.vars.clear()
+        op.fragments.clear()
     if scenario == "two-with-typename":
         # the subscription field first, then a meta field: two root fields
         tn = FieldSel("__typename", alias="t" if rs.below(2, "tn_alias")
